@@ -6,7 +6,7 @@ globals().update(
         pid="C13",
         props=["JaqalProofs/Props/C13.lean", "JaqalProofs/Props/C13Exact.lean", "JaqalProofs/Props/C13Run.lean"],
         targets=["JaqalProofs.Props.C13", "JaqalProofs.Props.C13Exact", "JaqalProofs.Props.C13Run"],
-        diffs=[("harness.agents.used_diff", 700, 5000), ("harness.agents.c13_history", 500, 6000), ("harness.agents.c13_edge", 300, 5000), ("harness.agents.c13_combo", 250, 2000)],
+        diffs=[("harness.agents.used_diff", 700, 5000), ("harness.agents.c13_history", 500, 6000), ("harness.agents.c13_edge", 300, 5000), ("harness.agents.c13_combo", 250, 2000), ("harness.agents.c13_traps", 500, 3000)],
         trusted=[
             STD_TRUST,
             "hand-written model JaqalModel/Model/UsedQubits.lean of UsedQubitIndicesVisitor (macro arguments evaluated in the caller's context, busy = all qubits, idle = none, registers expanded through Resolve) and of the disjoint merges DiscoverSubcircuits adds (parallel branches; a gate's own arguments)",
